@@ -35,7 +35,8 @@ RULE = ('case = generated compatible configuration pair (every suite, PSK / RSA 
         'established state for that IKE_SA and its model SAD stays empty; if both ends are established their reference-decoded '
         'views of messages 1 and 2 are identical. Positive control in every insider case: the same re-writing with the correct '
         'AUTH recomputed by the reference does establish. Non-trivial = the altered message still parses at the receiver, so '
-        'that authentication (not the parser) decides; distinct by (attack, role, auth methods, PRF).')
+        'that authentication (not the parser) decides; distinct by (attack, role, auth methods, PRF). '
+        'An installation counts when the NEWSA request is made (also if the SA is removed again afterwards). If the positive control (reference-crafted correct AUTH) is refused and the endpoint\'s own AUTH does not verify under the reference, that is reported as the violation it is; otherwise it is a harness error.')
 ASSUMPTIONS = [
     'the insider obtains SK_* from the reference observer (DH secrets read from the recorded DH objects), i.e. it models a '
     'peer that completed IKE_SA_INIT itself',
